@@ -339,6 +339,9 @@ enum Case {
     Enc { it: Item, pre: bool },
     /// the crate's encoder writes a file with several chunks, the crate's decoder reads it
     File { items: Vec<Item> },
+    /// like `File`, but item `bad` cannot be represented: the encoder must refuse it (`add_*_chunk` or
+    /// `write_header` for a head item, `write_text_chunk` for a tail item) and write nothing of it
+    Refuse { items: Vec<Item>, bad: usize },
     /// a (possibly invalid) compressed payload x a limit
     Inflate { kind: char, payload: Vec<u8>, limit: usize, strict: bool },
     /// operation sequence on one chunk object
@@ -396,6 +399,10 @@ impl Case {
                 .set("after", J::Bool(*after)),
             Case::Enc { it, pre } => J::obj().set("op", J::s("enc")).set("item", item_json(it)).set("pre", J::Bool(*pre)),
             Case::File { items } => J::obj().set("op", J::s("file")).set("items", J::Arr(items.iter().map(item_json).collect())),
+            Case::Refuse { items, bad } => J::obj()
+                .set("op", J::s("refuse"))
+                .set("items", J::Arr(items.iter().map(item_json).collect()))
+                .set("bad", J::i(*bad as u64)),
             Case::Inflate { kind, payload, limit, strict } => J::obj()
                 .set("op", J::s("inflate"))
                 .set("kind", J::s(&kind.to_string()))
@@ -419,6 +426,13 @@ impl Case {
             "enc" => Some(Case::Enc { it: item_from(j.get("item")?)?, pre: jbool(j, "pre")? }),
             "file" => match j.get("items")? {
                 J::Arr(a) => Some(Case::File { items: a.iter().map(item_from).collect::<Option<Vec<_>>>()? }),
+                _ => None,
+            },
+            "refuse" => match j.get("items")? {
+                J::Arr(a) => Some(Case::Refuse {
+                    items: a.iter().map(item_from).collect::<Option<Vec<_>>>()?,
+                    bad: j.get("bad")?.as_i64()? as usize,
+                }),
                 _ => None,
             },
             "inflate" => Some(Case::Inflate {
@@ -448,6 +462,7 @@ impl Case {
             Case::Body { .. } => "body",
             Case::Enc { .. } => "enc",
             Case::File { .. } => "file",
+            Case::Refuse { .. } => "refuse",
             Case::Inflate { .. } => "inflate",
             Case::Ops { .. } => "ops",
         }
@@ -462,6 +477,7 @@ impl Case {
             Case::Body { body, .. } => body.len() >= 3,
             Case::Enc { it, .. } => !it.text.is_empty(),
             Case::File { items } => items.iter().any(|i| !i.text.is_empty()),
+            Case::Refuse { items, bad } => *bad < items.len(),
             Case::Inflate { payload, .. } => !payload.is_empty(),
             Case::Ops { text, ops, .. } => !text.is_empty() && ops.len() >= 2,
         }
@@ -617,6 +633,11 @@ impl Case {
                 }
             }
             Case::File { .. } => vec![],
+            Case::Refuse { items, bad } => match items.get(*bad) {
+                // the model's verdict on the item that must be refused (uncompressed state)
+                Some(it) => Case::Enc { it: it.clone(), pre: false }.lines(),
+                None => vec![],
+            },
             Case::Inflate { kind, payload, limit, .. } => {
                 let st = match ref_inflate(payload) {
                     Some(raw) if raw.len() <= MODEL_MAX => format!("c:{}", toy(&raw)),
@@ -855,6 +876,25 @@ fn model_inflate(tail: &[u8]) -> Option<Vec<u8>> {
     }
 }
 
+/// The refusal the PNG format (and C17/C20) demand for this item, in the order in which the fields
+/// are laid out in the chunk: keyword (Latin-1, 1..79 bytes, no NUL), then for tEXt/zTXt a Latin-1
+/// text, for iTXt an ASCII language tag without NUL and a translated keyword without NUL.
+/// Independent of the model; written from the specification's chunk layouts.
+fn expected_refusal(it: &Item) -> Option<&'static str> {
+    let kwb = ref_latin1_encode(&it.kw);
+    match &kwb {
+        None => Some("err:unrepresentable"),
+        Some(b) if b.is_empty() || b.len() > 79 => Some("err:invalidKeywordSize"),
+        Some(b) if b.contains(&0) => Some("err:unrepresentable"),
+        Some(_) => match it.kind {
+            't' | 'z' if !is_latin1(&it.text) => Some("err:unrepresentable"),
+            'i' if !it.lang.is_ascii() || !nul_free(&it.lang) => Some("err:unrepresentable"),
+            'i' if !nul_free(&it.tk) => Some("err:unrepresentable"),
+            _ => None,
+        },
+    }
+}
+
 fn build_and_encode(it: &Item, pre: bool) -> Result<Result<Vec<u8>, String>, String> {
     let it = it.clone();
     guarded(move || match it.kind {
@@ -887,15 +927,7 @@ fn judge_enc(it: &Item, pre: bool, ans: &[String]) -> Option<Fail> {
         Err(p) => return oracle(&format!("panic/encode-{}", kind), format!("encode panicked: {}", p)),
     };
     let kwb = ref_latin1_encode(&it.kw);
-    let exp_err: Option<&str> = match &kwb {
-        None => Some("err:unrepresentable"),
-        Some(b) if b.is_empty() || b.len() > 79 => Some("err:invalidKeywordSize"),
-        Some(_) => match kind {
-            't' | 'z' if !is_latin1(&it.text) => Some("err:unrepresentable"),
-            'i' if !it.lang.is_ascii() => Some("err:unrepresentable"),
-            _ => None,
-        },
-    };
+    let exp_err: Option<&str> = expected_refusal(it);
     let imp = match &r {
         Ok(b) => hex(b),
         Err(c) => c.clone(),
@@ -1066,6 +1098,197 @@ fn judge_file(items: &[Item]) -> Option<Fail> {
             };
             if !ok {
                 return oracle(&format!("file/{}/fields", kind), format!("chunk #{} of kind {} read back differs from what was written", k, kind));
+            }
+        }
+    }
+    None
+}
+
+/// A sink that can be inspected while an `Encoder` / `Writer` owns it (also used by C17).
+#[derive(Clone, Default)]
+pub struct SharedSink(pub std::rc::Rc<std::cell::RefCell<Vec<u8>>>);
+
+impl SharedSink {
+    pub fn len(&self) -> usize {
+        self.0.borrow().len()
+    }
+    pub fn bytes(&self) -> Vec<u8> {
+        self.0.borrow().clone()
+    }
+}
+
+impl Write for SharedSink {
+    fn write(&mut self, buf: &[u8]) -> std::io::Result<usize> {
+        self.0.borrow_mut().extend_from_slice(buf);
+        Ok(buf.len())
+    }
+    fn flush(&mut self) -> std::io::Result<()> {
+        Ok(())
+    }
+}
+
+/// text chunks (type, keyword bytes up to the first NUL) found in a byte stream written by the encoder
+fn text_chunks_in(sink: &[u8]) -> Vec<([u8; 4], Vec<u8>)> {
+    let mut out = vec![];
+    for c in crate::props::c11::chunk_positions(sink) {
+        if &c.ty == b"tEXt" || &c.ty == b"zTXt" || &c.ty == b"iTXt" {
+            let body = &sink[c.start + 8..c.start + 8 + c.len];
+            let kw: Vec<u8> = body.iter().copied().take_while(|&b| b != 0).collect();
+            out.push((c.ty, kw));
+        }
+    }
+    out
+}
+
+/// The unrepresentable item must be refused and must leave no byte in the sink.
+/// Head item: `Encoder::add_*_chunk` may refuse it at once; if it accepts (it only stores the chunk),
+/// `write_header` must fail, and the sink may then hold only the text chunks that `encode_header`
+/// emits *before* it (tEXt of the head items in order, then zTXt, then iTXt).
+/// Tail item: `Writer::write_text_chunk` must fail without growing the sink; the rest of the file is
+/// then completed and must decode to all the other items.
+fn judge_refuse(items: &[Item], bad: usize, ans: &[String]) -> Option<Fail> {
+    let badit = items.get(bad)?.clone();
+    let want = match expected_refusal(&badit) {
+        Some(e) => e,
+        None => return modelf("refuse/generator", "the item is representable".into()),
+    };
+    if ans.len() != 1 {
+        return modelf("protocol", format!("model answered {:?}", ans.len()));
+    }
+    if ans[0] != want {
+        return modelf(&format!("refuse/{}/model", badit.kind), format!("model = {} but the format demands {}", short(&ans[0]), want));
+    }
+    let its = items.to_vec();
+    // (error class of the refusing call and which call it was, the sink afterwards, the completed
+    // file if the writer got that far)
+    type Out = (Option<(String, &'static str)>, Vec<u8>, Option<Vec<u8>>);
+    let r = guarded(move || -> Result<Out, String> {
+        let sink = SharedSink::default();
+        let mut refused: Option<(String, &'static str)> = None;
+        let mut enc = png::Encoder::new(sink.clone(), 1, 1);
+        enc.set_color(png::ColorType::Grayscale);
+        enc.set_depth(png::BitDepth::Eight);
+        for (k, it) in its.iter().enumerate().filter(|(_, i)| !i.tail) {
+            let r = match it.kind {
+                't' => enc.add_text_chunk(it.kw.clone(), it.text.clone()),
+                'z' => enc.add_ztxt_chunk(it.kw.clone(), it.text.clone()),
+                _ => enc.add_itxt_chunk(it.kw.clone(), it.text.clone()),
+            };
+            match r {
+                Ok(()) => {}
+                Err(e) if k == bad => refused = Some((enc_class(&e), "add_chunk")),
+                Err(e) => return Err(format!("add chunk #{}: {}", k, enc_class(&e))),
+            }
+        }
+        let head_bad = !its[bad].tail;
+        let mut w = match enc.write_header() {
+            Ok(w) => w,
+            Err(e) => {
+                if head_bad && refused.is_none() {
+                    return Ok((Some((enc_class(&e), "write_header")), sink.bytes(), None));
+                }
+                return Err(format!("write_header: {}", enc_class(&e)));
+            }
+        };
+        if head_bad && refused.is_none() {
+            drop(w);
+            return Ok((None, sink.bytes(), None));
+        }
+        w.write_image_data(&[0x55]).map_err(|e| format!("write_image_data: {}", enc_class(&e)))?;
+        for (k, it) in its.iter().enumerate().filter(|(_, i)| i.tail) {
+            let before = sink.len();
+            let r = match it.kind {
+                't' => w.write_text_chunk(&TEXtChunk::new(it.kw.clone(), it.text.clone())),
+                'z' => w.write_text_chunk(&ZTXtChunk::new(it.kw.clone(), it.text.clone())),
+                _ => {
+                    let mut c = ITXtChunk::new(it.kw.clone(), it.text.clone());
+                    c.compressed = it.flag;
+                    c.language_tag = it.lang.clone();
+                    c.translated_keyword = it.tk.clone();
+                    w.write_text_chunk(&c)
+                }
+            };
+            match r {
+                Ok(()) => {}
+                Err(e) if k == bad => {
+                    if sink.len() != before {
+                        return Ok((Some((format!("{}+wrote{}", enc_class(&e), sink.len() - before), "write_text_chunk")), sink.bytes(), None));
+                    }
+                    refused = Some((enc_class(&e), "write_text_chunk"))
+                }
+                Err(e) => return Err(format!("write_text_chunk #{}: {}", k, enc_class(&e))),
+            }
+        }
+        w.finish().map_err(|e| format!("finish: {}", enc_class(&e)))?;
+        Ok((refused, sink.bytes(), Some(sink.bytes())))
+    });
+    let (refused, sink, file) = match r {
+        Err(p) => return oracle("panic/encoder", format!("encoder panicked: {}", p)),
+        Ok(Err(m)) => return oracle("refuse/other-item", format!("a representable item was refused: {}", m)),
+        Ok(Ok(x)) => x,
+    };
+    let kind = badit.kind;
+    let (class, call) = match refused {
+        Some(x) => x,
+        None => {
+            return oracle(
+                &format!("refuse/{}/accepted", kind),
+                format!("unrepresentable item (keyword {}) was written without an error", short(&shex(&badit.kw))),
+            )
+        }
+    };
+    NOTES.with(|n| n.borrow_mut().push(("refusing call".to_string(), format!("{}/{}", kind, call))));
+    if class != want {
+        return oracle(&format!("refuse/{}/class", kind), format!("{} answered {} but the format demands {}", call, class, want));
+    }
+    // what may be in the sink: the representable items that are emitted before the refused one
+    let emitted_before: Vec<&Item> = if badit.tail {
+        items.iter().enumerate().filter(|(k, _)| *k != bad).map(|(_, i)| i).collect()
+    } else {
+        let order: Vec<usize> = ['t', 'z', 'i']
+            .iter()
+            .flat_map(|&kd| items.iter().enumerate().filter(move |(_, i)| !i.tail && i.kind == kd).map(|(k, _)| k))
+            .collect();
+        let pos = order.iter().position(|&k| k == bad).unwrap_or(0);
+        if call == "add_chunk" {
+            items.iter().enumerate().filter(|(k, _)| *k != bad).map(|(_, i)| i).collect()
+        } else {
+            order[..pos].iter().map(|&k| &items[k]).collect()
+        }
+    };
+    let found = text_chunks_in(&sink);
+    let mut allowed: Vec<([u8; 4], Vec<u8>)> = emitted_before
+        .iter()
+        .map(|i| (kind_type(i.kind), ref_latin1_encode(&i.kw).unwrap_or_default()))
+        .collect();
+    for f in &found {
+        match allowed.iter().position(|a| a == f) {
+            Some(p) => {
+                allowed.remove(p);
+            }
+            None => {
+                return oracle(
+                    &format!("refuse/{}/bytes-written", kind),
+                    format!("after the refusal the sink holds a {} chunk with keyword bytes {} that no accepted item accounts for", String::from_utf8_lossy(&f.0), hex(&f.1)),
+                )
+            }
+        }
+    }
+    if badit.tail || call == "add_chunk" {
+        if !allowed.is_empty() {
+            return oracle(&format!("refuse/{}/lost", kind), format!("{} accepted chunk(s) are missing from the file", allowed.len()));
+        }
+        // the completed file must decode to exactly the other items
+        if let Some(f) = file {
+            let others: Vec<Item> = items.iter().enumerate().filter(|(k, _)| *k != bad).map(|(_, i)| i.clone()).collect();
+            match decode_texts(&f) {
+                Err(p) => return oracle("panic/decoder", format!("decoder panicked: {}", p)),
+                Ok(Err(c)) => return oracle(&format!("refuse/{}/file-decode", kind), format!("decoder refuses the file written around the refused chunk: {}", c)),
+                Ok(Ok(t)) => {
+                    if t.t.len() + t.z.len() + t.i.len() != others.len() {
+                        return oracle(&format!("refuse/{}/file-count", kind), format!("{} chunks expected, {} read", others.len(), t.t.len() + t.z.len() + t.i.len()));
+                    }
+                }
             }
         }
     }
@@ -1390,6 +1613,7 @@ fn judge(c: &Case, ans: &[String]) -> Option<Fail> {
         Case::Body { kind, body, after } => judge_body(*kind, body, *after, ans),
         Case::Enc { it, pre } => judge_enc(it, *pre, ans),
         Case::File { items } => judge_file(items),
+        Case::Refuse { items, bad } => judge_refuse(items, *bad, ans),
         Case::Inflate { kind, payload, limit, strict } => judge_inflate(*kind, payload, *limit, *strict, ans),
         Case::Ops { kind, text, start_compressed, ops } => judge_ops(*kind, text, *start_compressed, ops, ans),
     }
@@ -1499,6 +1723,25 @@ fn itxt_body(kw: &[u8], flag: u8, method: u8, lang: &[u8], tk: &[u8], text: &[u8
     b
 }
 
+/// the string with a U+0000 inserted at the start, in the middle or at the end (or replacing a
+/// character, so that the length stays legal)
+fn with_nul(rng: &mut Rng, s: &str) -> String {
+    let mut cs: Vec<char> = s.chars().collect();
+    match rng.below(4) {
+        0 => cs.insert(0, '\0'),
+        1 => cs.push('\0'),
+        2 if !cs.is_empty() => {
+            let i = rng.usize(0, cs.len() - 1);
+            cs[i] = '\0';
+        }
+        _ => {
+            let i = rng.usize(0, cs.len());
+            cs.insert(i, '\0');
+        }
+    }
+    cs.into_iter().collect()
+}
+
 fn gen_item(rng: &mut Rng, valid: bool) -> Item {
     let kind = *rng.pick(&['t', 'z', 'i']);
     let kl = kw_len(rng);
@@ -1508,8 +1751,9 @@ fn gen_item(rng: &mut Rng, valid: bool) -> Item {
     let mut lang = if rng.bool() { String::new() } else { (0..rng.usize(1, 8)).map(|_| rng.range(0x21, 0x7E) as u8 as char).collect() };
     let tkl = rng.usize(1, 12);
     let tk = if rng.bool() { String::new() } else { gen_unicode(rng, tkl, false) };
+    let mut tk_nul = false;
     if !valid {
-        match rng.below(8) {
+        match rng.below(12) {
             0 => kw = String::new(),
             1 => kw = gen_keyword(rng, 80),
             2 => {
@@ -1529,9 +1773,19 @@ fn gen_item(rng: &mut Rng, valid: bool) -> Item {
                 kw = gen_keyword(rng, 80);
                 kw.push('\u{100}');
             }
+            // U+0000 in a NUL-terminated field (D16, repaired): must be refused, nothing written
+            7 | 8 => kw = with_nul(rng, &kw),
+            9 if kind == 'i' => lang = with_nul(rng, &lang),
+            10 if kind == 'i' => tk_nul = true,
+            11 => {
+                // NUL and too long: the size check comes first
+                let long = gen_keyword(rng, 80);
+                kw = with_nul(rng, &long);
+            }
             _ => {}
         }
     }
+    let tk = if tk_nul { with_nul(rng, &tk) } else { tk };
     Item { kind, kw, text, tail: rng.bool(), flag: rng.bool(), lang, tk }
 }
 
@@ -1798,6 +2052,28 @@ fn gen_cases(ctx: &mut Ctx) -> Vec<Case> {
         cases.push(Case::File { items });
     }
 
+    // --- the encoder refuses what cannot be represented, and writes nothing of it ---
+    for _ in 0..ctx.n(120, 1200) {
+        let n = rng.usize(1, 5);
+        let mut items: Vec<Item> = (0..n).map(|_| gen_item(&mut rng, true)).collect();
+        let bad = rng.usize(0, n - 1);
+        let kind = items[bad].kind;
+        let it = &mut items[bad];
+        match rng.below(if kind == 'i' { 5 } else { 3 }) {
+            0 | 1 => it.kw = with_nul(&mut rng, &it.kw.clone()),
+            2 => it.kw = "\0".to_string(),
+            3 => {
+                it.lang = with_nul(&mut rng, &it.lang.clone());
+                it.tail = true; // only `write_text_chunk` takes a language tag
+            }
+            _ => {
+                it.tk = with_nul(&mut rng, &it.tk.clone());
+                it.tail = true;
+            }
+        }
+        cases.push(Case::Refuse { items, bad });
+    }
+
     // --- compressed payloads x limits ---
     let lens: Vec<usize> = if quick { vec![0, 1, 2, 100, 1023, 1024, 1025, 32768, 70000] } else { vec![0, 1, 2, 3, 100, 1023, 1024, 1025, 32767, 32768, 32769, 33792, 33793, 70000, 300000] };
     for &len in &lens {
@@ -1966,6 +2242,20 @@ fn record(ctx: &mut Ctx, c: &Case) {
             });
         }
         Case::File { items } => ctx.rep.count("file chunks", &items.len().to_string()),
+        Case::Refuse { items, bad } => {
+            if let Some(it) = items.get(*bad) {
+                let why = if !nul_free(&it.kw) {
+                    "NUL in keyword"
+                } else if it.kind == 'i' && !nul_free(&it.lang) {
+                    "NUL in language tag"
+                } else if it.kind == 'i' && !nul_free(&it.tk) {
+                    "NUL in translated keyword"
+                } else {
+                    "other"
+                };
+                ctx.rep.count("refused item", &format!("{}/{}/{}", it.kind, if it.tail { "write_text_chunk" } else { "add_chunk+write_header" }, why));
+            }
+        }
         Case::Inflate { kind, limit, .. } => ctx.rep.count("inflate kind/limit", &format!("{}/{}", kind, size_class(*limit))),
         Case::Ops { kind, ops, .. } => ctx.rep.count("ops kind/length", &format!("{}/{}", kind, ops.len())),
     }
@@ -2019,6 +2309,7 @@ pub fn run(ctx: &mut Ctx) {
         sampled: byte strings and strings (random, boundary-heavy, up to 300 KiB quick / 600 KiB thorough) x \
         {Latin-1 decode+encode, arbitrary string -> encode outcome, injected chunk bodies (well-formed, every prefix, keyword lengths 0/1/78/79/80/81/200, \
         invalid UTF-8, flag/method values, mutations) before/after IDAT, API-built chunks encoded and re-read, encoder-written files, \
+        unrepresentable items (U+0000 in keyword / language tag / translated keyword, among representable ones) that add_*_chunk+write_header / write_text_chunk must refuse without writing a byte of them, \
         compressed payloads (stored/deflated/corrupt/bombs) x limits {0,1,len-1,len,len+1,2 MiB}, operation sequences of compress/decompress/get_text}; \
         non-trivial = carries at least one byte or character of text/payload (bodies: >= 3 bytes; sequences: >= 2 operations); distinct = hash of the whole case"
         .into();
@@ -2045,6 +2336,7 @@ pub fn run(ctx: &mut Ctx) {
         if n > 0 {
             ctx.rep.model_compared += 1;
         } else if !matches!(c, Case::File { .. }) {
+            // (a `Refuse` case always has a model line)
             ctx.rep.model_gaps += 1;
         }
         record(ctx, c);
